@@ -4,8 +4,13 @@ The real http.Client runs on in-memory connectors (vlib/fakenet.FakeConnector[Tl
 scripted harness server with two authorities.  A case is a list of operations (queue a
 request / run one service cycle) plus one behaviour per request that reaches a server:
 answer 200 (Content-Length or chunked, after a delay, in fragments, optionally closing the
-connection afterwards), or redirect (relative, absolute same authority, other authority,
-https -> http).
+connection afterwards, or framed by closing: no length, the end of the connection ends the body),
+answer 300 without a Location header (a 3xx that cannot be followed), redirect (relative, absolute
+same authority, other authority, https -> http), or close the connection at any point of the
+response (nothing sent, inside the head, inside the body).  Requests use GET / POST / PUT / PATCH /
+DELETE / OPTIONS / HEAD (a HEAD answer is a head with a Content-Length and no body) and may carry
+caller data that is not sent (reply=..., an extra keyword), the documented way to associate
+responses with requests.
 
 Observed at the server, every cycle:
   * at most one request is unanswered at any time (one at a time);
@@ -15,9 +20,12 @@ Observed at the client, every cycle:
     request (first redirect hop if redirected, else the entry's own 'request') has the
     queued method and path, the body is the one the final target sent for that request,
     'redirects' holds exactly the hops taken;
+  * the entry's 'request' holds the caller data queued with request k, also over a redirect;
   * a redirect from https to http is refused: the entry is marked errored, and no byte
     reaches the http target.
-Finally, with healthy servers, there is exactly one entry per queued request.
+Finally there is exactly one entry per queued request.  A request whose answer the server cut off by
+closing the connection must still produce its entry (nothing is demanded of its status, body or
+error mark); requests queued behind a closed connection are the separate, listed open finding.
 """
 from hypothesis import strategies as st
 
@@ -28,15 +36,26 @@ from vlib.core import Result, assert_in_tree, exc_sig
 assert_in_tree(clienting)
 
 PID = "C19"
-RULE = ("cases: 1-6 queued requests (GET/POST/PUT, unique paths, bodies) interleaved with service cycles x per-arrival server "
-        "behaviour (200, or 201 with a Location header that must not be followed, with Content-Length or chunked, delay 0-4 cycles, fragment size, close after answering; redirect 301/302/"
+RULE = ("cases: 1-6 queued requests (GET/POST/PUT/PATCH/DELETE/OPTIONS/HEAD, unique paths, bodies, optional caller data reply= / extra "
+        "keyword) interleaved with service cycles x per-arrival server "
+        "behaviour (200, or 201 with a Location header that must not be followed, or 300 without Location, with Content-Length or "
+        "chunked or framed by closing, delay 0-4 cycles, fragment size, close after answering; redirect 301/302/"
         "303/307 relative / absolute / to the other authority, chains up to 3 hops; https->http redirect on a TLS flavoured "
-        "client); non-trivial = >= 3 queued requests with a delayed answer or a redirect among them; distinct = canonical hash")
+        "client, followed by answers with a Location header; any answer cut off by closing the connection after 0-99.9% of its "
+        "bytes); non-trivial = >= 3 queued requests with a delayed answer or a redirect among them; distinct = canonical hash")
 ASSUMPTIONS = [
-    "servers answer every request completely (a server that closes instead of answering is not generated: the outcome is not defined by the statement)",
+    "a server that closes the connection before its answer is complete is generated: the request must still produce its one "
+    "entry (the client's own design: PrematureClosure -> errored entry); status, body and error mark of that entry are not judged",
+    "requests queued behind a connection the server closed are attributed to the listed open finding (no reconnect), not to the "
+    "request whose answer was cut off",
     "bodies of queued entries are compared when the entry is appended; later aliasing of body buffers is recorded as a label only",
     "after a redirect to another authority later queued requests go to that authority (documented as future work in the client); the "
     "harness answers a request wherever it arrives and does not judge the authority of non-redirected requests",
+    "method and body of the follow-up request of a redirect are not judged (the statement does not say what a 303 does to a POST)",
+    "a HEAD request is answered with Content-Length (or with no length and a close), never with Transfer-Encoding: chunked",
+    "caller data (reply=, extra keyword) is looked for in the entry's own 'request', where a caller that does not know about "
+    "redirects reads it ('followed transparently'); method and path are accepted from the first redirect hop, because "
+    "'request' documents the request that was finally answered",
 ]
 
 A = ("127.0.0.1", 8080)
@@ -108,13 +127,15 @@ class Srv:
                 continue
             sock, data = p[0], p[1]
             n = max(1, p[3])
-            if not sock.closed:
+            if data and not sock.closed:
                 sock.send(bytes(data[:n]))
             del data[:n]
             if not data:
                 self.pending.remove(p)
-                self.answered += 1
+                self.answered += 1        # the server is done with this request (also when it cut its answer short)
+                self.arrivals[p[4]]["sent"] = True
                 if p[5]:
+                    self.arrivals[p[4]]["closing"] = True
                     sock.close()
 
     def parse(self, auth, b):
@@ -143,31 +164,47 @@ class Srv:
             self.arrivals.append(arr)
             if self.on_arrival is not None:
                 self.on_arrival(arr)
-            self.pending.append([b, bytearray(self.response(arr)), int(beh.get("delay", 0)), int(beh.get("frag", 4096)), idx,
-                                 bool(beh.get("close"))])
+            resp = self.response(arr)
+            cut = beh.get("cut")
+            if cut is not None:
+                # the server closes the connection before the answer is complete: 0 <= cut <= 999 permille of its bytes are sent
+                resp = resp[:len(resp) * max(0, min(999, int(cut))) // 1000]
+                arr["cut"] = True
+            self.pending.append([b, bytearray(resp), int(beh.get("delay", 0)), int(beh.get("frag", 4096)), idx,
+                                 bool(beh.get("close")) or bool(arr.get("eof")) or cut is not None])
 
     def response(self, arr):
         beh = arr["beh"]
         k = beh["kind"]
         if k == "ok" or arr.get("force_ok"):
             body = ("answer-%d:%s:%s" % (arr["idx"], arr["method"], arr["target"])).encode() + arr["body"][:20]
-            arr["answer"] = body
+            head_only = arr["method"] == "HEAD"      # the answer to HEAD is the head of the GET answer, without the body
+            arr["answer"] = b"" if head_only else body
             conn = b"Connection: close\r\n" if beh.get("close") else b""
             status = b"200 OK"
             arr["status"] = 200
-            if beh.get("loc"):
+            if beh.get("noloc3"):
+                # a 3xx that cannot be followed (300 Multiple Choices without a preferred Location): it is the answer
+                status = b"300 Multiple Choices"
+                arr["status"] = 300
+            elif beh.get("loc"):
                 # a success answer that carries a Location header (201 Created): it is an answer, not a redirect
                 status = b"201 Created"
                 arr["status"] = 201
-                conn += b"Location: /created/%d\r\n" % arr["idx"]
-            if beh.get("chunked"):
+                arr["created"] = "/created/%d" % arr["idx"]
+                conn += b"Location: " + arr["created"].encode() + b"\r\n"
+            if beh.get("eof"):
+                # no length at all: the body ends where the server closes the connection
+                arr["eof"] = True
+                return b"HTTP/1.1 " + status + b"\r\n" + conn + b"\r\n" + (b"" if head_only else body)
+            if beh.get("chunked") and not head_only:
                 half = len(body) // 2
                 out = b"HTTP/1.1 " + status + b"\r\nTransfer-Encoding: chunked\r\n" + conn + b"\r\n"
                 for piece in (body[:half], body[half:]):
                     if piece:
                         out += b"%x\r\n" % len(piece) + piece + b"\r\n"
                 return out + b"0\r\n\r\n"
-            return b"HTTP/1.1 " + status + b"\r\nContent-Length: %d\r\n" % len(body) + conn + b"\r\n" + body
+            return b"HTTP/1.1 " + status + b"\r\nContent-Length: %d\r\n" % len(body) + conn + b"\r\n" + (b"" if head_only else body)
         # redirects
         hop = "/r%d" % arr["idx"]
         if k == "redir-rel":
@@ -191,6 +228,7 @@ def run_case(case):
     r = Result()
     tls = case["tls"]
     issued = []           # (method, path, body)
+    extras = []           # per queued request: caller data that is not sent, {"reply": ..., "ticket": ...} (keys only when given)
     with Patch():
         srv = Srv(case["behaviours"], r)
         cls = fakenet.FakeConnectorTls if tls else fakenet.FakeConnector
@@ -220,22 +258,40 @@ def run_case(case):
                 # the chain of arrivals that belongs to queued request k
                 chain = [a for a in srv.arrivals if a.get("owner") == k]
                 final = chain[-1] if chain else None
+                # caller data queued with request k: the documented way to associate an entry with its request
+                req = e.get("request") or {}
+                lost = [x for x in ("reply", "ticket") if req.get(x) != extras[k].get(x)]
                 down = final is not None and final["beh"]["kind"] == "redir-downgrade" and tls and "answer" not in final
                 if down:
                     if not e.get("errored"):
                         r.fail("C19/https-to-http-redirect-not-refused", "entry %d: %r" % (k, {x: e.get(x) for x in ("status", "errored", "error")}))
+                    elif lost:
+                        r.fail("C19/entry-lost-the-caller-data-of-its-originating-request", "entry %d (refused redirect): 'request' has %r, "
+                               "queued with %r" % (k, {x: req.get(x) for x in lost}, extras[k]))
+                    continue
+                if final is not None and final.get("cut"):
+                    # the server closed the connection inside this answer: the entry exists, nothing else is demanded of it
+                    if lost:
+                        r.fail("C19/entry-lost-the-caller-data-of-its-originating-request", "entry %d (answer cut off): 'request' has %r, "
+                               "queued with %r" % (k, {x: req.get(x) for x in lost}, extras[k]))
                     continue
                 if final is None or "answer" not in final:
                     r.fail("C19/entry-without-final-answer", "entry %d (status %r) appeared before the final target answered; chain %r" % (
                         k, e.get("status"), [(a["method"], a["target"], a["beh"]["kind"]) for a in chain]))
                     return
                 if e.get("errored") or e.get("status") != final.get("status", 200) or bytes(e.get("body") or b"") != final["answer"]:
-                    r.fail("C19/wrong-answer-for-entry", "entry %d: status %r errored %r body %r; the final target answered %r" % (
-                        k, e.get("status"), e.get("errored"), bytes(e.get("body") or b"")[:60], final["answer"][:60]))
+                    r.fail("C19/wrong-answer-for-entry" + ("(redirected HEAD)" if method == "HEAD" and len(chain) > 1 else ""),
+                           "entry %d: status %r errored %r error %r body %r; the final target answered %r %r" % (
+                               k, e.get("status"), e.get("errored"), e.get("error"), bytes(e.get("body") or b"")[:60],
+                               final.get("status", 200), final["answer"][:60]))
                     return
                 nh = len(chain) - 1
                 if len(hops) != nh:
                     r.fail("C19/redirect-history", "entry %d took %d redirect hops, 'redirects' holds %d" % (k, nh, len(hops)))
+                    return
+                if lost:
+                    r.fail("C19/entry-lost-the-caller-data-of-its-originating-request", "entry %d (%d redirect hops): 'request' has %r, "
+                           "request %d was queued with %r" % (k, nh, {x: req.get(x) for x in lost}, k, extras[k]))
                     return
             seen = len(resp)
 
@@ -253,7 +309,14 @@ def run_case(case):
             else:
                 state["owner"] += 1
                 own = a["owner"] = state["owner"]
-                if own < len(issued):
+                prev = srv.arrivals[-2] if len(srv.arrivals) > 1 else None
+                if prev is not None and prev.get("created") and a["target"] == prev["created"]:
+                    # nobody queued this request: it goes to the Location header of the previous, non-redirect, answer
+                    r.fail("C19/answer-with-a-Location-header-followed-as-a-redirect", "arrival %d %r %r follows the Location of the %d "
+                           "answer to arrival %d %r %r; the arrival before that was answered %r" % (
+                               a["idx"], a["method"], a["target"], prev.get("status", 0), prev["idx"], prev["method"], prev["target"],
+                               (srv.arrivals[-3].get("status") or srv.arrivals[-3]["beh"]["kind"]) if len(srv.arrivals) > 2 else None))
+                elif own < len(issued):
                     m, p, bd = issued[own]
                     if a["method"] != m or a["target"].split("?")[0] != p or a["body"] != bd:
                         r.fail("C19/request-order-on-the-wire", "arrival %d is %r %r, queued request %d is %r %r" % (
@@ -266,7 +329,8 @@ def run_case(case):
                 a["force_ok"] = True          # bound the chain: the 4th arrival of a request is answered
             if kind == "redir-downgrade" and not tls:
                 a["force_ok"] = True          # a downgrade only exists for an https client
-            state["follow"] = kind.startswith("redir") and not a.get("force_ok") and kind != "redir-downgrade"
+            state["follow"] = (kind.startswith("redir") and not a.get("force_ok") and kind != "redir-downgrade"
+                               and a["beh"].get("cut") is None)      # a redirect answer that was cut off cannot be followed
 
         srv.on_arrival = on_arrival
 
@@ -277,9 +341,16 @@ def run_case(case):
                     break
                 if op[0] == "req":
                     n = len(issued)
-                    method, path, body = op[1], "/p%d" % n, (op[2] if op[1] != "GET" else b"")
+                    method, path, body = op[1], "/p%d" % n, (op[2] if op[1] in ("POST", "PUT", "PATCH") else b"")
                     issued.append((method, path, body))
-                    client.request(method=method, path=path, body=body)
+                    ex = int(op[3]) if len(op) > 3 and op[3] else 0
+                    kw = {}
+                    if ex >= 1:
+                        kw["reply"] = {"rid": n}
+                    if ex >= 2:
+                        kw["ticket"] = "t%d" % n
+                    extras.append(dict(kw))
+                    client.request(method=method, path=path, body=body, **kw)
                 else:
                     client.service()
                     srv.step()
@@ -303,11 +374,33 @@ def run_case(case):
             return r
         if not r.failures:
             down_seen = any(a["beh"]["kind"] == "redir-downgrade" and tls for a in srv.arrivals)
-            closed = any(a["beh"].get("close") and a["beh"]["kind"] == "ok" for a in srv.arrivals)
-            if len(client.responses) != len(issued) and not down_seen:
-                r.fail("C19/not-one-entry-per-request" + ("(after a server closed the connection behind its answer)" if closed else ""),
-                       "%d queued requests, %d entries after the servers answered everything "
-                       "(arrivals %d, answered %d)" % (len(issued), len(client.responses), len(srv.arrivals), srv.answered))
+            if len(client.responses) < len(issued):
+                # attribute the first request without an entry
+                k = len(client.responses)
+                chain = [a for a in srv.arrivals if a.get("owner") == k]
+                final = chain[-1] if chain else None
+                what = "%d queued requests, %d entries after the servers were done (arrivals %d, answered %d); request %d %r %r: " % (
+                    len(issued), len(client.responses), len(srv.arrivals), srv.answered, k, issued[k][0], issued[k][1])
+                if final is not None and final.get("cut"):
+                    # it reached a server on a live connection, the server closed inside its answer: its entry is due all the same
+                    r.fail("C19/no-entry-for-a-request-whose-answer-the-server-cut-off", what + "arrival %d got %d of the answer's bytes "
+                           "per mille (%s), then the connection was closed; client.waited=%r" % (
+                               final["idx"], int(final["beh"]["cut"]), final["beh"]["kind"], client.waited))
+                elif final is not None and final.get("sent") and not (final["beh"]["kind"].startswith("redir") and "answer" not in final):
+                    # it reached a server and was answered completely (a close afterwards does not take the answer back)
+                    r.fail("C19/not-one-entry-per-request" + ("(redirected HEAD)" if issued[k][0] == "HEAD" and len(chain) > 1 else
+                                                              "(complete answer with a Location header)" if final.get("created") else ""),
+                           what + "its final arrival %d (%s %s after %d redirect hops) was answered completely with status %r; "
+                           "client.waited=%r" % (final["idx"], final["method"], final["target"], len(chain) - 1, final.get("status"),
+                                                 client.waited))
+                elif final is None and any(a.get("closing") for a in srv.arrivals):
+                    # never reached a server: it was written to a connection a server had closed (the listed open finding)
+                    r.fail("C19/not-one-entry-per-request(after a server closed the connection behind its answer)", what + "never arrived")
+                else:
+                    r.fail("C19/not-one-entry-per-request", what + "chain %r" % (
+                        [(a["method"], a["target"], a["beh"]["kind"], bool(a.get("sent"))) for a in chain],))
+            elif len(client.responses) > len(issued):
+                r.fail("C19/more-responses-than-requests", "%d entries, %d requests were queued" % (len(client.responses), len(issued)))
             if tls and down_seen and srv.bytes_to_b:
                 r.fail("C19/bytes-reached-http-target-after-https", "%d bytes" % srv.bytes_to_b)
     delayed = any(a["beh"].get("delay", 0) > 0 for a in srv.arrivals)
@@ -320,32 +413,64 @@ def run_case(case):
         r.labels.append("delayed-answer")
     if any(a["beh"].get("close") for a in srv.arrivals):
         r.labels.append("close-after-answer")
+    if any(a.get("eof") for a in srv.arrivals):
+        r.labels.append("answer-framed-by-closing")
+    if any(a.get("cut") for a in srv.arrivals):
+        r.labels.append("answer-cut-off-by-closing")
+    if any(a.get("status") == 300 for a in srv.arrivals):
+        r.labels.append("3xx-without-Location")
+    if any(a["method"] == "HEAD" for a in srv.arrivals):
+        r.labels.append("HEAD")
+    if any(a["method"] == "HEAD" and a["beh"]["kind"].startswith("redir") for a in srv.arrivals):
+        r.labels.append("HEAD-redirected")
+    if any(extras):
+        r.labels.append("caller-data")
     if len(issued) >= 3:
         r.labels.append(">=3 requests")
     return r
 
 
+METHODS = ["GET", "GET", "POST", "PUT", "HEAD", "HEAD", "DELETE", "PATCH", "OPTIONS"]
+CUTS = [0, 1, 15, 120, 300, 450, 600, 750, 900, 999]
+
+
 def _strategy():
-    req = st.tuples(st.just("req"), st.sampled_from(["GET", "POST", "PUT"]), st.binary(max_size=12)).map(list)
+    req = st.tuples(st.just("req"), st.sampled_from(METHODS), st.binary(max_size=12), st.sampled_from([0, 0, 1, 2])).map(list)
     svc = st.just(["svc"])
-    ok = st.fixed_dictionaries({"kind": st.just("ok"), "delay": st.sampled_from([0, 0, 1, 2, 4]),
-                                "frag": st.sampled_from([4096, 4096, 7, 1, 30]), "chunked": st.booleans(),
-                                "close": st.sampled_from([False, False, False, True]),
-                                "loc": st.sampled_from([False, False, True])})
-    redir = st.fixed_dictionaries({"kind": st.sampled_from(["redir-rel", "redir-abs", "redir-other"]),
-                                   "code": st.sampled_from([301, 302, 303, 307]), "delay": st.sampled_from([0, 1, 3]),
-                                   "frag": st.sampled_from([4096, 9])})
-    plain = st.fixed_dictionaries({"tls": st.just(False),
-                                   "ops": st.lists(st.one_of(req, req, svc, svc, svc), min_size=1, max_size=24),
-                                   "behaviours": st.lists(st.one_of(ok, ok, redir), min_size=1, max_size=8)})
+    nocut = st.none()
+    cut = st.one_of(st.sampled_from(CUTS), st.integers(0, 999))
+
+    def ok(closing):
+        return st.fixed_dictionaries({"kind": st.just("ok"), "delay": st.sampled_from([0, 0, 1, 2, 4]),
+                                      "frag": st.sampled_from([4096, 4096, 7, 1, 30]), "chunked": st.booleans(),
+                                      "close": st.sampled_from([False, False, False, True]),
+                                      "loc": st.sampled_from([False, False, True]),
+                                      "noloc3": st.sampled_from([False, False, False, False, True]),
+                                      "eof": st.sampled_from([False, False, False, True]) if closing else st.just(False),
+                                      "cut": st.one_of(nocut, nocut, cut) if closing else nocut})
+
+    def redir(closing):
+        return st.fixed_dictionaries({"kind": st.sampled_from(["redir-rel", "redir-abs", "redir-other"]),
+                                      "code": st.sampled_from([301, 302, 303, 307]), "delay": st.sampled_from([0, 1, 3]),
+                                      "frag": st.sampled_from([4096, 9]),
+                                      "cut": st.one_of(nocut, nocut, nocut, cut) if closing else nocut})
+
+    def hist(closing):
+        return st.fixed_dictionaries({"tls": st.just(False),
+                                      "ops": st.lists(st.one_of(req, req, svc, svc, svc), min_size=1, max_size=24),
+                                      "behaviours": st.lists(st.one_of(ok(closing), ok(closing), redir(closing)), min_size=1, max_size=8)})
+
+    plain = hist(False)       # servers that answer completely (and may close behind the answer)
+    closing = hist(True)      # servers that also close inside an answer, or frame the body by closing
     down = st.fixed_dictionaries({"kind": st.just("redir-downgrade"), "code": st.sampled_from([301, 302, 307]),
                                   "delay": st.just(0), "frag": st.just(4096), "same": st.booleans()})
     ok_open = st.fixed_dictionaries({"kind": st.just("ok"), "delay": st.sampled_from([0, 1]), "frag": st.just(4096),
-                                     "chunked": st.booleans(), "close": st.just(False)})
+                                     "chunked": st.booleans(), "close": st.just(False),
+                                     "loc": st.sampled_from([False, True])})
     tls = st.fixed_dictionaries({"tls": st.just(True),
                                  "ops": st.lists(st.one_of(req, svc, svc), min_size=1, max_size=12),
                                  "behaviours": st.lists(st.one_of(ok_open, ok_open, down), min_size=1, max_size=5)})
-    return st.one_of(plain, plain, plain, tls)
+    return st.one_of(plain, plain, plain, closing, tls)
 
 
 def searches(tier):
